@@ -8,7 +8,7 @@ From Coq Require Import Permutation.
 From TL Require Import Lib.Base Lib.GenTypes Gen.OrchHistGen Model.OrchHist Model.OrchHistRun
      Proofs.OrchHistBase Proofs.OrchHistMain.
 
-(* 1. History independence.  For every quirk vector with the three state flags off, every initial file system and
+(* 1. History independence.  For every quirk vector with the two remaining state flags off (the DRY storage is reset by finalize() since fix 8b82489: read from the source, no flag needed), every initial file system and
       every admissible history of lint calls (file / file list / directory / Linter.lint) interleaved with edits,
       deletions, additions and the construction of a new Linter for the same root in the same process: the i-th call
       returns exactly what a fresh object (in a fresh process) returns on the file system as it is at that moment.
@@ -16,33 +16,40 @@ From TL Require Import Lib.Base Lib.GenTypes Gen.OrchHistGen Model.OrchHist Mode
       of the ignore file and the construction of the next Linter. *)
 Theorem C08_history_independent :
   forall V perfile rep_blocks rep_consts rep_st hard_excl ignored ign_path in_dir q fs0 h,
-  q_dry_keeps_storage q = false -> q_lintfile_leaves_evidence q = false -> q_ignore_parser_reused q = false ->
+  q_lintfile_leaves_evidence q = false -> q_ignore_parser_reused q = false ->
   hist_synced ign_path false h = true ->
   snd (run V perfile rep_blocks rep_consts rep_st hard_excl ignored ign_path in_dir q (mk_init ign_path fs0, fs0) h)
   = fresh_run V perfile rep_blocks rep_consts rep_st hard_excl ignored ign_path in_dir q fs0 h.
 Proof. exact history_independent. Qed.
 Print Assumptions C08_history_independent.
 
-(* histories without bare single-file calls (directory / file-list runs only, as the CLI makes them):
-   resetting the DRY storage alone suffices *)
-Theorem C08_history_independent_batch :
+(* ... and for EVERY quirk vector, in particular the one claimed for the current tree (partial: the full statement is the
+   theorem above): histories without bare Orchestrator.lint_file calls and without rebuilding the Linter in the same
+   process - directory / file-list runs and Linter.lint, as the CLI and the documented API usage make them. *)
+Theorem C08_history_independent_faithful_partial :
   forall V perfile rep_blocks rep_consts rep_st hard_excl ignored ign_path in_dir q fs0 h,
-  q_dry_keeps_storage q = false -> q_ignore_parser_reused q = false ->
-  forallb (fun o => negb (bare_single q o)) h = true -> hist_synced ign_path false h = true ->
+  forallb (fun o => negb (bare_single q o)) h = true -> forallb (fun o => negb (is_new_linter o)) h = true ->
+  hist_synced ign_path false h = true ->
   snd (run V perfile rep_blocks rep_consts rep_st hard_excl ignored ign_path in_dir q (mk_init ign_path fs0, fs0) h)
   = fresh_run V perfile rep_blocks rep_consts rep_st hard_excl ignored ign_path in_dir q fs0 h.
-Proof. exact history_independent_batch. Qed.
-Print Assumptions C08_history_independent_batch.
+Proof. exact history_independent_faithful. Qed.
+Print Assumptions C08_history_independent_faithful_partial.
+
+(* Linter.lint(file) is no bare single-file call any more (fix f7c62f4: it goes through lint_files) *)
+Theorem C08_api_file_call_finalizes : forall q p, bare_single q (ApiLint (TFile p)) = false.
+Proof. exact api_file_call_finalizes. Qed.
+Print Assumptions C08_api_file_call_finalizes.
 
 (* 2. Order independence.  If the duplicate-code and stringly-typed reports are insensitive to the order of
       their evidence, then permuting the file list of any call and the order in which any directory is walked
-      permutes the result of every call of the history (per origin: per-file, blocks, constants, stringly). *)
+      permutes the result of every call of the history (per origin: per-file, blocks, constants, stringly) - for every quirk
+      vector: the duplicate-constant report sees its evidence in canonical order since fix 5ce39e3 (read from the source). *)
 Theorem C08_order_independent :
   forall V perfile rep_blocks rep_consts rep_st hard_excl ignored ign_path in_dir,
   (forall l l' a a', Permutation l l' -> Permutation a a' -> Permutation (rep_blocks l a) (rep_blocks l' a')) ->
   (forall l l', Permutation l l' -> Permutation (rep_st l) (rep_st l')) ->
   forall q fs0 h h',
-  q_consts_in_processing_order q = false -> Forall2 op_perm h h' ->
+  Forall2 op_perm h h' ->
   Forall2 (out_perm V)
     (snd (run V perfile rep_blocks rep_consts rep_st hard_excl ignored ign_path in_dir q (mk_init ign_path fs0, fs0) h))
     (snd (run V perfile rep_blocks rep_consts rep_st hard_excl ignored ign_path in_dir q (mk_init ign_path fs0, fs0) h')).
@@ -55,8 +62,7 @@ Theorem C08_results_depend_on_current_state_only :
   (forall l l' a a', Permutation l l' -> Permutation a a' -> Permutation (rep_blocks l a) (rep_blocks l' a')) ->
   (forall l l', Permutation l l' -> Permutation (rep_st l) (rep_st l')) ->
   forall q fs0 h h',
-  q_dry_keeps_storage q = false -> q_lintfile_leaves_evidence q = false -> q_consts_in_processing_order q = false ->
-  q_ignore_parser_reused q = false -> hist_synced ign_path false h = true ->
+  q_lintfile_leaves_evidence q = false -> q_ignore_parser_reused q = false -> hist_synced ign_path false h = true ->
   Forall2 op_perm h h' ->
   Forall2 (out_perm V)
     (snd (run V perfile rep_blocks rep_consts rep_st hard_excl ignored ign_path in_dir q (mk_init ign_path fs0, fs0) h'))
@@ -72,19 +78,6 @@ Print Assumptions C08_permuted_results_are_permutations.
 Theorem C08_canonical_order : forall l l', Permutation l l' -> fv_sort l = fv_sort l' /\ Permutation (fv_sort l) l.
 Proof. intros l l' H. split; [exact (fv_sort_perm_eq l l' H)|exact (fv_sort_perm l)]. Qed.
 Print Assumptions C08_canonical_order.
-
-(* 4. Confinement (partial: the full statement is 1).  With the DRY storage surviving finalize() — as in the
-      current tree — but bare single-file calls leaving nothing behind, every call of every history returns the
-      per-file, duplicate-constant and stringly-typed findings of a fresh object; only the duplicate-code part
-      can differ. *)
-Theorem C08_stale_state_confined_to_blocks_partial :
-  forall V perfile rep_blocks rep_consts rep_st hard_excl ignored ign_path in_dir q fs0 h,
-  q_lintfile_leaves_evidence q = false -> q_ignore_parser_reused q = false -> hist_synced ign_path false h = true ->
-  Forall2 (same_but_blocks V)
-    (snd (run V perfile rep_blocks rep_consts rep_st hard_excl ignored ign_path in_dir q (mk_init ign_path fs0, fs0) h))
-    (fresh_run V perfile rep_blocks rep_consts rep_st hard_excl ignored ign_path in_dir q fs0 h).
-Proof. exact stale_state_confined_to_blocks. Qed.
-Print Assumptions C08_stale_state_confined_to_blocks_partial.
 
 (* 5. In the model, lint operations never change the file system (the implementation's freedom from side effects
       is observed by snapshots, not proved). *)
